@@ -58,7 +58,7 @@ def opdesc(r):
     if r["op"] == "bupsert":
         return "backend-upsert(%s)" % "+".join(r["actions"])
     if r["op"] == "bremove":
-        return "backend-remove"
+        return "backend-remove(%d-ids)" % len(r["opids"])
     return "removeAll(%s)" % r["how"]
 
 
@@ -81,6 +81,7 @@ def run(ctx):
         # always keep the multi-entry Add calls on a fresh list; a seeded sample of the rest
         # ... and every re-add of an id (any two templates) on every version
         keep = [h for h in pairs if (h["h"][0]["op"] == "addmany" and h["h"][1]["op"] == "removeAll")
+                or (h["h"][1]["op"] == "bremove" and h["h"][0]["op"] in ("add", "addmany"))
                 or (h["h"][0]["op"] == "add" and h["h"][1]["op"] == "add" and h["h"][0]["id"] == h["h"][1]["id"])]
         rest = [h for h in pairs if h not in keep]
         rnd.shuffle(rest)
